@@ -49,6 +49,18 @@ def step (r : Regs) (line : String) : Regs × String :=
       let (v, ch) := mergeFrom (getV r a) (getV r b) { skip := skew = "1" && (getV r b).timestamp < 1000000, strategy := s }
       (setV r a v, s!"changed={if ch then 1 else 0} {dump v}")
     | none => (r, "bad-op")
+  | ["touch", a, id, st, lc] =>
+    -- the node actor updates a stored member state in place (status on suspicion / recovery, clock on refresh);
+    -- counts are not recomputed by that. Only view `a` changes: the views hold their own copies of every state
+    match st.toNat?, lc.toNat? with
+    | some s, some l =>
+      let v := getV r a
+      match lookup v.members id with
+      | some m =>
+        let v' := { v with members := setM v.members id { m with status := s, lc := l } }
+        (setV r a v', dump v')
+      | none => (r, dump v)
+    | _, _ => (r, "bad-op")
   | ["copy", a, b] => (setV r b (getV r a), "ok")
   | ["dump", a] => (r, dump (getV r a))
   | ["leader", a] =>
